@@ -121,7 +121,17 @@ func verifRefParse(content string, id int, ignoreCosmetic bool) []verifScanned {
 func verifC11String(n int, ignoreCosmetic int) {
 	// with the classification table of the driver (real NewRule on every line over {a,#,space}) a
 	// counterexample is replayable; lines outside the table stay uninterpreted
-	content := verifString("content", n, "a# \n\r")
+	verifC11StringBody(verifString("content", n, "a# \n\r"), n, ignoreCosmetic)
+}
+
+// verifC11BOM: the same for a list that starts with a UTF-8 byte order mark (three concrete
+// non-ASCII bytes, then n symbolic ones): the mark is part of the first line for the scanner
+// and for retrieval alike.
+func verifC11BOM(n int) {
+	verifC11StringBody("\xef\xbb\xbf"+verifString("content", n, "a\n"), n+3, 0)
+}
+
+func verifC11StringBody(content string, n int, ignoreCosmetic int) {
 	id := 3
 	l := &StringRuleList{ID: id, RulesText: content, IgnoreCosmetic: ignoreCosmetic != 0}
 	want := verifRefParse(content, id, l.IgnoreCosmetic)
